@@ -479,8 +479,34 @@ func checkWLEntropyLedger(p *core.Program, r *core.Report, rule string) {
 		ok, why := isCountZeroPredicate(g)
 		r.Check(ok, rule+"b", core.FuncName(g), "capitalisation gate is (uncapitalisable count == 0)", p.Pos(g.Pos()), why)
 	} else {
-		r.Unrecognised(rule+"b", "-", "capitalisation gate", "", "no bool predicate on WordList found")
+		inline := false
+		for _, t := range terms {
+			for _, g := range t.Guards {
+				if rel, ok := core.AsRel(g); ok && isWordListCount(rel.X) {
+					inline = true
+				}
+			}
+		}
+		if inline {
+			r.Pass(rule+"b", name, "capitalisation gate is (uncapitalisable count == 0), written in place", p.Pos(ent.Pos()), "")
+		} else {
+			r.Unrecognised(rule+"b", "-", "capitalisation gate", "", "no bool predicate on WordList found")
+		}
 	}
+}
+
+// isWordListCount: a load of an integer field of a WordList (the stored uncapitalisable count).
+func isWordListCount(v ssa.Value) bool {
+	ld, ok := v.(*ssa.UnOp)
+	if !ok || ld.Op != token.MUL {
+		return false
+	}
+	fa, ok := ld.X.(*ssa.FieldAddr)
+	if !ok || core.NamedOf(fa.X.Type()) != core.ModulePath+".WordList" {
+		return false
+	}
+	b, isB := ld.Type().Underlying().(*types.Basic)
+	return isB && b.Info()&types.IsInteger != 0
 }
 
 func isEntropySimpleCall(p *core.Program, v ssa.Value) bool {
@@ -530,6 +556,21 @@ func describeGuards(p *core.Program, gs []core.Guard) (desc string, gate bool, s
 			}
 		}
 		if rel, ok := core.AsRel(g); ok {
+			// the gate written in place: the list's uncapitalisable count compared with zero
+			if isWordListCount(rel.X) {
+				if k, isC := core.ConstInt(rel.Y); isC {
+					switch {
+					case rel.Op == token.EQL && k == 0, rel.Op == token.LSS && k == 1, rel.Op == token.LEQ && k == 0:
+						gate = true
+						parts = append(parts, "count==0")
+						continue
+					case rel.Op == token.NEQ && k == 0, rel.Op == token.GEQ && k == 1, rel.Op == token.GTR && k == 0:
+						other = "NOT count==0"
+						parts = append(parts, other)
+						continue
+					}
+				}
+			}
 			x, y := rel.X, rel.Y
 			if _, isC := x.(*ssa.Const); isC {
 				x, y = y, x
